@@ -290,14 +290,18 @@ def wrapOptional (t : DebugTrail) (d : Val) (o : Outcome Val) : Outcome Val :=
   | _, .err e => .err (LErr.union [LErr.leaf "TypeLoadError" d, e])
   | _, o => o
 
+/-- FIRST: the first non-LoadError outcome, else a `UnionLoadError` of all the errors
+    (`pre`: errors collected before the list, `[]` at top level) -/
+def unionFirstResult (pre : List LErr) (os : List (Outcome Val)) : Outcome Val :=
+  match firstNonErr os with
+  | some o => o
+  | none => .err (LErr.union (pre ++ prefixErrs os))
+
 /-- the general union loader on the outcomes of the cases -/
 def generalUnion (t : DebugTrail) (os : List (Outcome Val)) : Outcome Val :=
   match t with
   | .disable => (firstNonErr os).getD (.err LErr.bare)
-  | .first =>
-    (match firstNonErr os with
-     | some o => o
-     | none => .err (LErr.union (prefixErrs os)))
+  | .first => unionFirstResult [] os
   | .all => unionAll os [] false
 
 theorem modes_general_eq (cfg : Cfg) (cases : List Ty) (ld : Ty → Val → Outcome Val) (d : Val) :
@@ -315,7 +319,7 @@ theorem modes_general_eq (cfg : Cfg) (cases : List Ty) (ld : Ty → Val → Outc
       | err e => exact absurd rfl (hne e)
       | _ => simp
   | first =>
-    simp only
+    simp only [unionFirstResult]
     cases h : firstNonErr (cases.map fun c => ld c d) with
     | none => simp
     | some o =>
